@@ -103,6 +103,8 @@ def expect (model, req):
   and applies the request's effect to the model.
   """
   n = req["name"]; d = req["fields"]
+  if n == "malformed":
+    return ("error", [(1, 6)])                 # BAD_REQUEST / BAD_LEN
   if n == "echo_request":
     return ("reply", "echo_reply",
             lambda m: None if m["body"] == d["body"] else "echo body differs")
@@ -223,8 +225,48 @@ def expect (model, req):
   raise KeyError(n)
 
 
+def encode (req):
+  if req["name"] == "malformed": return req["fields"]["raw"]
+  return ofwire.enc_message(req["name"], req["fields"])
+
+
+def gen_malformed (rng, xid):
+  """
+  A message of a known type whose body cannot be decoded, with a length
+  field that agrees with the bytes actually sent (so the stream stays
+  aligned): the statement wants an error carrying the xid, and the requests
+  behind it answered as usual.
+  """
+  k = rng.choice(["set_config", "port_mod", "stats_request", "flow_mod",
+                  "queue_get_config_request"])
+  if k == "set_config":
+    good = ofwire.enc_message(k, dict(xid=xid, flags=0, miss_send_len=128))
+    raw = good[:10]
+  elif k == "port_mod":
+    good = ofwire.enc_message(k, dict(xid=xid, port_no=1, hw_addr=port_hw(1),
+                                      config=0, mask=0, advertise=0))
+    raw = good[:rng.choice([12, 24, 31])]
+  elif k == "stats_request":
+    good = ofwire.enc_message(k, dict(xid=xid, type=1, flags=0, body=dict(
+      match=MATCHES[0], table_id=0xff, out_port=0xffff)))
+    raw = good[:rng.choice([13, 20, 40])]
+  elif k == "flow_mod":
+    good = ofwire.enc_message(k, dict(
+      xid=xid, match=MATCHES[0], cookie=0, command=0, idle_timeout=0,
+      hard_timeout=0, priority=1, buffer_id=0xffffffff, out_port=0xffff,
+      flags=0, actions=[dict(type=0, port=2, max_len=0)]))
+    raw = good[:rng.choice([20, 71, 76])]
+  else:
+    good = ofwire.enc_message(k, dict(xid=xid, port=1))
+    raw = good[:10]
+  raw = raw[:2] + struct.pack("!H", len(raw)) + raw[4:]
+  return dict(name="malformed", fields=dict(xid=xid, of=k, raw=raw))
+
+
 def gen_request (rng, xid):
   r = rng.random()
+  if r < 0.05: return gen_malformed(rng, xid)
+  r = (r - 0.05) / 0.95
   def msg (name, **f):
     f["xid"] = xid
     return dict(name=name, fields=f)
@@ -319,7 +361,7 @@ def run_sequence (case, rep):
   nt = False
   ok = True
   for i, req in enumerate(reqs):
-    raw = ofwire.enc_message(req["name"], req["fields"])
+    raw = encode(req)
     rep.count("requests")
     if req["name"] == "stats_request": rep.count("stats_requests")
     try:
@@ -396,7 +438,7 @@ def run_sequence (case, rep):
   # --- differential: same sequence as one segmented batch on a fresh switch
   if ok:
     sw2 = new_switch()
-    blob = b"".join(ofwire.enc_message(r["name"], r["fields"]) for r in reqs)
+    blob = b"".join(encode(r) for r in reqs)
     cuts = sorted(rng.randrange(1, len(blob)) for _ in range(rng.choice([0, 1, 3, 8])))
     prev = 0
     try:
@@ -428,6 +470,7 @@ def run_sequence (case, rep):
 
 def label (req):
   n = req["name"]; d = req["fields"]
+  if n == "malformed": return "malformed[%s]" % d["of"]
   if n == "stats_request":
     t = d["type"]
     s = ofwire.STATS[t][0] if t in ofwire.STATS else "unknown-type"
@@ -478,7 +521,7 @@ def do_case (case, rep):
 def plan (tier, seed):
   if tier == "quick":
     return [dict(count=1200, n=12, sub=i) for i in range(16)]
-  return [dict(count=9000, n=40, sub=i) for i in range(32)]
+  return [dict(count=20000, n=40, sub=i) for i in range(48)]
 
 
 def run (spec, rep):
